@@ -14,6 +14,7 @@
 //   - asynchronous: sent - delivered <= reported-missed (3 of 3 runs)                   -> silent-drop:<kind>
 //   - no data race report                                                               -> data-race:<functions>
 //   - no panic, no hang                                                                 -> worker-crash / hang:<kind>
+//
 // and emits correspondence cases for the Coq model (coq/C13/Model.v, check_case).
 package main
 
@@ -23,6 +24,7 @@ import (
 	"flag"
 	"fmt"
 	"io"
+	stdlog "log"
 	"math/rand"
 	"os"
 	"os/exec"
@@ -423,10 +425,10 @@ type built struct {
 	overlaps func() int
 }
 
-func all(mid) bool    { return true }
+func all(mid) bool       { return true }
 func onlyErr(m mid) bool { return m.S == 'e' }
 func onlyOut(m mid) bool { return m.S == 'o' }
-func none(mid) bool   { return false }
+func none(mid) bool      { return false }
 
 func jsonSinkFromRec(name string, w *recWriter) *sink {
 	return &sink{name: name, format: "json", read: w.bytes, required: all, allowed: all}
@@ -683,6 +685,7 @@ type runObs struct {
 	sent, delivered, reported      int
 	panicMsg                       string
 	hang                           bool
+	collisions                     int64
 }
 
 func truncateStd(sc Scenario) {
@@ -695,6 +698,7 @@ func truncateStd(sc Scenario) {
 func runOnce(sc Scenario, res *WResult, emitCase bool) (ob runObs) {
 	rng := rand.New(rand.NewSource(sc.Seed))
 	truncateStd(sc)
+	coll0 := atomic.LoadInt64(&collisions.n)
 	b, err := build(sc)
 	if err != nil {
 		ob.panicMsg = "constructor failed: " + err.Error()
@@ -788,53 +792,63 @@ func runOnce(sc Scenario, res *WResult, emitCase bool) (ob runObs) {
 		s.name = fmt.Sprintf("appended#%d(%s)", i, s.name)
 		sinks = append(sinks, s)
 	}
-	totalDelivered := 0
-	for _, s := range sinks {
-		c, u := s.parse(sc.Seed)
-		for _, x := range c {
-			ob.corrupt = append(ob.corrupt, s.name+": "+x)
-		}
-		for _, x := range u {
-			ob.unexpected = append(ob.unexpected, s.name+": "+x)
-		}
-		seen := map[mid]int{}
-		for _, m := range s.obs {
-			seen[m]++
-			if !sent[m] {
-				ob.corrupt = append(ob.corrupt, fmt.Sprintf("%s: message %v was never sent", s.name, m))
-			} else if !s.allowed(m) {
-				ob.unexpected = append(ob.unexpected, fmt.Sprintf("%s: holds message p%d.%c.%d which it must not hold", s.name, m.P, m.S, m.K))
+	evaluate := func() {
+		ob.corrupt, ob.unexpected, ob.dup, ob.lost = nil, nil, nil, nil
+		totalDelivered := 0
+		for _, s := range sinks {
+			c, u := s.parse(sc.Seed)
+			for _, x := range c {
+				ob.corrupt = append(ob.corrupt, s.name+": "+x)
 			}
-		}
-		for m, n := range seen {
-			if n > 1 {
-				ob.dup = append(ob.dup, fmt.Sprintf("%s: message p%d.%c.%d delivered %d times", s.name, m.P, m.S, m.K, n))
+			for _, x := range u {
+				ob.unexpected = append(ob.unexpected, s.name+": "+x)
 			}
-		}
-		missing := 0
-		var first mid
-		for m := range sent {
-			if s.required(m) && seen[m] == 0 {
-				if missing == 0 || m.K < first.K {
-					first = m
+			seen := map[mid]int{}
+			for _, m := range s.obs {
+				seen[m]++
+				if !sent[m] {
+					ob.corrupt = append(ob.corrupt, fmt.Sprintf("%s: message %v was never sent", s.name, m))
+				} else if !s.allowed(m) {
+					ob.unexpected = append(ob.unexpected, fmt.Sprintf("%s: holds message p%d.%c.%d which it must not hold", s.name, m.P, m.S, m.K))
 				}
-				missing++
 			}
-		}
-		if missing > 0 {
-			req := 0
+			for m, n := range seen {
+				if n > 1 {
+					ob.dup = append(ob.dup, fmt.Sprintf("%s: message p%d.%c.%d delivered %d times", s.name, m.P, m.S, m.K, n))
+				}
+			}
+			missing := 0
+			var first mid
 			for m := range sent {
-				if s.required(m) {
-					req++
+				if s.required(m) && seen[m] == 0 {
+					if missing == 0 || m.K < first.K {
+						first = m
+					}
+					missing++
 				}
 			}
-			ob.lost = append(ob.lost, fmt.Sprintf("%s: %d of %d messages missing (e.g. p%d.%c.%d); %d lines found", s.name, missing, req, first.P, first.S, first.K, len(s.obs)))
+			if missing > 0 {
+				req := 0
+				for m := range sent {
+					if s.required(m) {
+						req++
+					}
+				}
+				ob.lost = append(ob.lost, fmt.Sprintf("%s: %d of %d messages missing (e.g. p%d.%c.%d); %d lines found", s.name, missing, req, first.P, first.S, first.K, len(s.obs)))
+			}
+			totalDelivered += len(seen)
 		}
-		totalDelivered += len(seen)
+		ob.sent, ob.delivered = len(sent), totalDelivered
+		if b.drops != nil {
+			ob.reported, _ = b.drops.total()
+		}
 	}
-	ob.sent, ob.delivered = len(sent), totalDelivered
-	if b.drops != nil {
-		ob.reported, _ = b.drops.total()
+	evaluate()
+	ob.collisions = atomic.LoadInt64(&collisions.n) - coll0
+	if b.async && ob.sent-ob.delivered-ob.reported > 0 {
+		// only what is still missing after a grace period counts as lost
+		time.Sleep(50 * time.Millisecond)
+		evaluate()
 	}
 	sort.Strings(ob.corrupt)
 	sort.Strings(ob.lost)
@@ -1171,11 +1185,160 @@ func runScript(sc Scenario, res *WResult) {
 }
 
 // ---------------------------------------------------------------------------------------------------------------
+// Known finding (third-party diode, many_to_one.go): a producer's Set loads the bucket of its slot, the reader swaps
+// that slot to nil (it held a STALE bucket left behind by an earlier fast-forward), the producer's compare-and-swap
+// fails ("Diode set collision") and the producer re-sends under the NEXT sequence number.  The slot at readIndex is
+// now empty and nobody will fill it before the writers have gone round the whole ring again: the reader is stuck,
+// and everything sent from then on stays in the ring.  Close() ends the reader: those messages are neither delivered
+// nor reported.  The interleaving cannot be forced from outside (no hook between the load and the CAS), so this
+// replay ARMS the precondition deterministically (scripted reader, see runScript) and then races one Set against the
+// reader's TryNext with a swept delay, until the reader is observed stuck or the budget is used up.
+
+type spinGate struct {
+	arrived chan mid
+	release chan int // spin count before returning; <0 = return at once
+	goFlag  *int32
+	seed    int64
+}
+
+func (g *spinGate) Write(p []byte) (int, error) {
+	m := tokenRe.FindSubmatch(p)
+	id := mid{-1, 'o', -1}
+	if m != nil {
+		pi, _ := strconv.Atoi(string(m[1]))
+		k, _ := strconv.Atoi(string(m[3]))
+		id = mid{pi, m[2][0], k}
+	}
+	g.arrived <- id
+	d := <-g.release
+	if d >= 0 {
+		for atomic.LoadInt32(g.goFlag) == 0 {
+		}
+		for i := 0; i < d; i++ {
+			_ = atomic.LoadInt32(g.goFlag)
+		}
+	}
+	return len(p), nil
+}
+func (g *spinGate) Close() error           { return nil }
+func (g *spinGate) SetSource(string) error { return nil }
+
+func runGap(sc Scenario, res *WResult) {
+	res.Evals++
+	n := sc.Ring
+	var goFlag int32
+	gw := &spinGate{arrived: make(chan mid, 4), release: make(chan int), goFlag: &goFlag, seed: sc.Seed}
+	ew := &recWriter{}
+	drops := &dropRec{}
+	l, err := logs.NewAsynchronousLoggers(gw, ew, n, time.Millisecond, "lsrc", "src0", drops)
+	if err != nil {
+		return
+	}
+	sent, delivered := 0, 0
+	send := func() { l.Log(token(sc.Seed, mid{0, 'o', sent})); sent++ }
+	arrive := func(d time.Duration) bool {
+		select {
+		case <-gw.arrived:
+			delivered++
+			return true
+		case <-time.After(d):
+			return false
+		}
+	}
+	deadline := time.Now().Add(time.Duration(sc.Msgs) * time.Millisecond)
+	attempts := 0
+	stuck := false
+	busy := false
+	for !stuck && time.Now().Before(deadline) {
+		attempts++
+		// 1. fill: the reader takes the first message and is held; n-1 more fill the ring behind it
+		if busy { // (left over from the previous attempt)
+			gw.release <- -1
+			busy = false
+		}
+		send()
+		if !arrive(100 * time.Millisecond) {
+			stuck = true
+			break
+		}
+		busy = true
+		for i := 0; i < n-1; i++ {
+			send()
+		}
+		// 2. lap the reader by one slot
+		send()
+		send()
+		// 3. the reader fast-forwards; readIndex now points at a slot holding a stale bucket, and readIndex = writeIndex
+		gw.release <- -1
+		if !arrive(100 * time.Millisecond) {
+			stuck = true
+			break
+		}
+		// 4. race one Set against the reader's TryNext on that slot
+		atomic.StoreInt32(&goFlag, 0)
+		ready := make(chan struct{})
+		fin := make(chan struct{})
+		go func() {
+			close(ready)
+			for atomic.LoadInt32(&goFlag) == 0 {
+			}
+			send()
+			close(fin)
+		}()
+		<-ready
+		gw.release <- (attempts * 53) % 4000
+		time.Sleep(20 * time.Microsecond)
+		atomic.StoreInt32(&goFlag, 1)
+		<-fin
+		// 5. did the message arrive?
+		if !arrive(40 * time.Millisecond) {
+			stuck = true
+			busy = false
+			break
+		}
+		busy = true
+	}
+	if busy {
+		gw.release <- -1
+	}
+	// let the reader settle, then close: whatever is still in the ring is gone
+	go func() {
+		for range gw.arrived {
+			delivered++
+			gw.release <- -1
+		}
+	}()
+	time.Sleep(5 * time.Millisecond)
+	closed := make(chan struct{})
+	go func() { _ = l.Close(); close(closed) }()
+	select {
+	case <-closed:
+	case <-time.After(10 * time.Second):
+	}
+	time.Sleep(2 * time.Millisecond)
+	reported, _ := drops.total()
+	res.Counts["ring-gap-attempts"] += attempts
+	if stuck && sent-delivered > reported {
+		res.Counts["ring-gap-reproduced"]++
+		res.fail("stuck-in-ring-at-close", fmt.Sprintf("ring %d: after %d attempts the reader was stuck on an emptied slot; %d sent, %d delivered, %d reported as dropped: %d message(s) lost silently at Close",
+			n, attempts, sent, delivered, reported, sent-delivered-reported), sc)
+	} else {
+		res.Notes = append(res.Notes, fmt.Sprintf("known finding 'stuck-in-ring-at-close' not reproduced in %d attempts (stuck=%v sent=%d delivered=%d reported=%d)", attempts, stuck, sent, delivered, reported))
+	}
+}
+
+// ---------------------------------------------------------------------------------------------------------------
 // worker
 
 func runScenario(sc Scenario, res *WResult) {
 	if sc.Kind == "ringscript" {
 		runScript(sc, res)
+		return
+	}
+	if sc.Kind == "ringgap" {
+		if res.Counts["ring-gap-reproduced"] == 0 {
+			runGap(sc, res)
+		}
 		return
 	}
 	res.Evals++
@@ -1209,13 +1372,22 @@ func runScenario(sc Scenario, res *WResult) {
 		} else {
 			res.Counts["async-runs-without-drops"]++
 		}
-		if ob.sent-ob.delivered > ob.reported {
+		nrings := 2
+		if sc.Kind == "jsonslow" {
+			nrings = 1
+		}
+		gapBound := nrings * (sc.Ring - 1) // what the known diode defect (stuck-in-ring-at-close) can strand: < one lap per ring
+		if un := ob.sent - ob.delivered - ob.reported; un > 0 && un <= gapBound && ob.collisions > 0 {
+			// an observed fact, not a timing judgement: these messages were sent, never delivered, never reported
+			res.Counts["async-stuck-at-close"]++
+			res.fail("stuck-in-ring-at-close", fmt.Sprintf("%s, ring %d: %d sent, %d delivered, %d reported as dropped: %d message(s) lost silently at Close", kind, sc.Ring, ob.sent, ob.delivered, ob.reported, un), sc)
+		} else if un > 0 {
 			// timing dependent: confirm 3 of 3 before reporting
 			confirmed := 1
 			last := ob
 			for i := 0; i < 2; i++ {
 				o2 := runOnce(sc, res, false)
-				if o2.sent-o2.delivered > o2.reported {
+				if u2 := o2.sent - o2.delivered - o2.reported; u2 > gapBound || (u2 > 0 && o2.collisions == 0) {
 					confirmed++
 					last = o2
 				}
@@ -1234,7 +1406,20 @@ func runScenario(sc Scenario, res *WResult) {
 	}
 }
 
+// the diode announces a failed Set attempt on the standard logger ("Diode set collision: ...")
+type collisionCounter struct{ n int64 }
+
+func (c *collisionCounter) Write(p []byte) (int, error) {
+	if bytes.Contains(p, []byte("Diode set collision")) {
+		atomic.AddInt64(&c.n, 1)
+	}
+	return len(p), nil
+}
+
+var collisions collisionCounter
+
 func workerMain() {
+	stdlog.SetOutput(&collisions)
 	bs, err := os.ReadFile(*workerSpec)
 	if err != nil {
 		os.Exit(3)
@@ -1330,6 +1515,10 @@ func scenarios(r *h.Run) map[string][]Scenario {
 	}
 	for i := 0; i < r.N(30, 90); i++ {
 		add(Scenario{Kind: "async", Producers: 2 + rng.Intn(4), Msgs: 2 + rng.Intn(12), Mix: "log", Ring: []int{1, 2, 3, 4, 8, 64}[rng.Intn(6)], PollMs: rng.Intn(2), SlowUs: rng.Intn(200), Case: true})
+	}
+	// replay of the known finding (runs in its own worker from the start of every run)
+	for i, ring := range []int{4, 4, 2, 4, 3, 4} {
+		groups["ringgap"] = append(groups["ringgap"], Scenario{Kind: "ringgap", Ring: ring, Msgs: 1500, Seed: int64(7 + i)})
 	}
 	// scripted ring runs (deterministic): boundary scripts first, then random ones
 	script := func(ring, poll int, evs []int) {
